@@ -88,9 +88,9 @@ pub fn tables() -> Value {
 const PIECES: &[&str] = &[
     "a", "b", "Z", "0", "x", "lua", "init", " ", " ", "%", "%", "#", "?", "é", "中", "😀", "ß", "\\", ":", "|", ".", "-",
     "_", "~", "\"", "<", ">", "{", "}", "`", "[", "]", "^", ";", "=", "@", "&", "+", "$", ",", "'", "!", "*", "(", ")",
-    "\t", "\n", "\r", "\u{7f}", "\u{1}", "%41", "%2e", "%2E", "%zz", "2e", "c:", "c|", "C:",
+    "\t", "\n", "\r", "\u{7f}", "\u{1}", "%41", "%2e", "%2E", "%zz", "2e", "c:", "c|", "C:", "%2F", "%25", "%2541", "%E6%96%B0", "50%20off", "%20", "%",
 ];
-const WHOLE: &[&str] = &[".", "..", "...", ".a", "a.", "%2e", "%2e%2e", "%2E.", "c:", "c|", "C:", "~", " ", "%", "a b", "#", "?"];
+const WHOLE: &[&str] = &["50%20off.lua", "%41", "%2F", "%E6%96%B0", "%252e", ".", "..", "...", ".a", "a.", "%2e", "%2e%2e", "%2E.", "c:", "c|", "C:", "~", " ", "%", "a b", "#", "?"];
 
 #[derive(Clone)]
 struct GenPath {
@@ -325,6 +325,234 @@ fn oracle_vfs(canon: &str, alts: &[String], other: Option<&str>) -> Option<Strin
     }
 }
 
+// ---------------------------------------------------------------------------------------------
+// histories on one Vfs
+// ---------------------------------------------------------------------------------------------
+
+#[derive(Clone, Debug)]
+enum HOp {
+    FileId,
+    GetFileId,
+    Remove,
+    Read,
+    Set(Option<u32>),
+    Clear,
+    LocalIds,
+}
+
+#[derive(Clone, Debug)]
+struct HStep {
+    op: HOp,
+    /// canonical (decoded) path addressed, empty for Clear / LocalIds
+    path: String,
+    /// the URI spelling used
+    uri: String,
+}
+
+fn step_token(s: &HStep) -> String {
+    let h = hexb(s.uri.as_bytes());
+    match &s.op {
+        HOp::FileId => format!("f:{h}"),
+        HOp::GetFileId => format!("g:{h}"),
+        HOp::Remove => format!("r:{h}"),
+        HOp::Read => format!("d:{h}"),
+        HOp::Set(Some(t)) => format!("s{t}:{h}"),
+        HOp::Set(None) => format!("sn:{h}"),
+        HOp::Clear => "c".into(),
+        HOp::LocalIds => "l".into(),
+    }
+}
+
+fn step_json(s: &HStep) -> Value {
+    json!({"op": format!("{:?}", s.op), "path": s.path, "uri": s.uri})
+}
+
+fn step_from_json(v: &Value) -> Option<HStep> {
+    let op = v.get("op")?.as_str()?;
+    let op = match op {
+        "FileId" => HOp::FileId,
+        "GetFileId" => HOp::GetFileId,
+        "Remove" => HOp::Remove,
+        "Read" => HOp::Read,
+        "Clear" => HOp::Clear,
+        "LocalIds" => HOp::LocalIds,
+        "Set(None)" => HOp::Set(None),
+        o => HOp::Set(Some(o.trim_start_matches("Set(Some(").trim_end_matches("))").parse().ok()?)),
+    };
+    Some(HStep { op, path: v.get("path")?.as_str()?.to_string(), uri: v.get("uri")?.as_str()?.to_string() })
+}
+
+/// a spelling of `p` the model supports: an alternative encoding, sometimes with doubled slashes or
+/// `/./` (the same `PathBuf`)
+fn spelling(rng: &mut Rng, p: &str) -> String {
+    let (mut u, _) = alt_uri(rng, p, false);
+    if p.len() > 1 && rng.chance(1, 8) {
+        u = u.replacen("file:///", *rng.pick(&["file:////", "file:///./"]), 1);
+    }
+    u
+}
+
+fn gen_history(rng: &mut Rng, good: &[String]) -> Vec<HStep> {
+    let base: Vec<String> = (0..rng.range(1, 3)).map(|_| rng.pick(good).clone()).collect();
+    let n = rng.range(3, 12);
+    let mut out = Vec::new();
+    for _ in 0..n {
+        let p = rng.pick(&base).clone();
+        let op = match rng.below(16) {
+            0..=3 => HOp::FileId,
+            4..=6 => HOp::Set(Some(rng.below(5) as u32 + 1)),
+            7 => HOp::Set(None),
+            8..=9 => HOp::GetFileId,
+            10..=12 => HOp::Remove,
+            13 => HOp::Read,
+            14 => HOp::LocalIds,
+            _ => HOp::Clear,
+        };
+        let (path, uri) = match op {
+            HOp::Clear | HOp::LocalIds => (String::new(), String::new()),
+            _ => {
+                let u = spelling(rng, &p);
+                (p, u)
+            }
+        };
+        out.push(HStep { op, path, uri });
+    }
+    // always end by looking at every base path through two spellings and at the local ids
+    for p in &base {
+        for _ in 0..2 {
+            out.push(HStep { op: HOp::GetFileId, path: p.clone(), uri: spelling(rng, p) });
+        }
+        out.push(HStep { op: HOp::Read, path: p.clone(), uri: spelling(rng, p) });
+    }
+    out.push(HStep { op: HOp::LocalIds, path: String::new(), uri: String::new() });
+    out
+}
+
+fn new_vfs() -> Vfs {
+    let mut vfs = Vfs::new();
+    vfs.update_config(std::sync::Arc::new(emmylua_code_analysis::Emmyrc::default()));
+    vfs
+}
+
+/// Runs the history on the real `Vfs`. Returns the canonical output (same format as `uri.history`)
+/// and the first violation of the property's statement, evaluated on the implementation alone:
+/// the id is a function of the decoded path; after `remove_file` the path is unknown under every
+/// spelling; after re-creation every spelling gives the same new id; contents follow the path;
+/// `get_all_local_file_ids` are exactly the ids of known paths that hold content (no orphans).
+fn impl_history(h: &[HStep]) -> Result<(String, Option<String>), String> {
+    let h = h.to_vec();
+    vh_common::catch(move || {
+        let mut vfs = new_vfs();
+        // self-test of this oracle (VH_SELFTEST_URI_CACHE=1): emulate a per-spelling id cache in front
+        // of `file_id` that `remove_file` only evicts for the spelling it was given
+        let selftest = std::env::var("VH_SELFTEST_URI_CACHE").is_ok();
+        let mut cache: std::collections::HashMap<String, u32> = Default::default();
+        let mut outs: Vec<String> = Vec::new();
+        let mut known: std::collections::BTreeMap<String, u32> = Default::default(); // decoded path -> id
+        let mut content: std::collections::BTreeMap<String, u32> = Default::default(); // decoded path -> tag
+        let mut bad: Option<String> = None;
+        let flag = |bad: &mut Option<String>, i: usize, m: String| {
+            if bad.is_none() {
+                *bad = Some(format!("step {i}: {m}"));
+            }
+        };
+        let opt = |o: Option<u32>| o.map(|x| x.to_string()).unwrap_or("none".into());
+        for (i, s) in h.iter().enumerate() {
+            let uri = if s.uri.is_empty() { None } else { Uri::from_str(&s.uri).ok() };
+            match (&s.op, &uri) {
+                (HOp::Clear, _) => {
+                    vfs.clear();
+                    cache.clear();
+                    vfs.update_config(std::sync::Arc::new(emmylua_code_analysis::Emmyrc::default()));
+                    known.clear();
+                    content.clear();
+                    outs.push("-".into());
+                }
+                (HOp::LocalIds, _) => {
+                    let ids: Vec<u32> = vfs.get_all_local_file_ids().iter().map(|f| f.id).collect();
+                    outs.push(format!("[{}]", ids.iter().map(|x| x.to_string()).collect::<Vec<_>>().join(";")));
+                }
+                (_, None) => return ("err parse".to_string(), None),
+                (HOp::FileId, Some(u)) | (HOp::Set(_), Some(u)) => {
+                    let id = match &s.op {
+                        HOp::Set(t) => vfs.set_file_content(u, t.map(|t| format!("-- {t}"))).id,
+                        _ if selftest && cache.contains_key(u.as_str()) => cache[u.as_str()],
+                        _ => vfs.file_id(u).id,
+                    };
+                    cache.insert(u.as_str().to_string(), id);
+                    outs.push(id.to_string());
+                    match known.get(&s.path) {
+                        Some(k) if *k != id => flag(&mut bad, i, format!("{:?} on {:?} gave id {id}, the path already has id {k}", s.op, s.uri)),
+                        Some(_) => {}
+                        None => {
+                            if known.values().any(|k| *k == id) {
+                                flag(&mut bad, i, format!("{:?} on {:?} gave id {id}, which belongs to another path", s.op, s.uri));
+                            }
+                            known.insert(s.path.clone(), id);
+                        }
+                    }
+                    if let HOp::Set(t) = &s.op {
+                        match t {
+                            Some(t) => content.insert(s.path.clone(), *t),
+                            None => content.remove(&s.path),
+                        };
+                    }
+                }
+                (HOp::GetFileId, Some(u)) => {
+                    let got = vfs.get_file_id(u).map(|f| f.id);
+                    outs.push(opt(got));
+                    if got != known.get(&s.path).copied() {
+                        flag(&mut bad, i, format!("get_file_id({:?}) = {:?}, the path's id is {:?}", s.uri, got, known.get(&s.path)));
+                    }
+                }
+                (HOp::Remove, Some(u)) => {
+                    let got = vfs.remove_file(u).map(|f| f.id);
+                    cache.remove(u.as_str());
+                    outs.push(opt(got));
+                    if got != known.get(&s.path).copied() {
+                        flag(&mut bad, i, format!("remove_file({:?}) = {:?}, the path's id is {:?}", s.uri, got, known.get(&s.path)));
+                    }
+                    known.remove(&s.path);
+                    content.remove(&s.path);
+                }
+                (HOp::Read, Some(u)) => {
+                    let got = vfs.get_file_id(u).and_then(|f| vfs.get_file_content(&f).cloned());
+                    let tag = got.as_ref().and_then(|c| c.trim_start_matches("-- ").parse::<u32>().ok());
+                    outs.push(format!("c{}", opt(tag)));
+                    if tag != content.get(&s.path).copied() {
+                        flag(&mut bad, i, format!("content read through {:?} is {:?}, the path holds {:?}", s.uri, tag, content.get(&s.path)));
+                    }
+                }
+            }
+            // after every step: every known path answers the same id under fresh spellings of both
+            // kinds, and the local ids are exactly the known ids that hold content
+            for (p, k) in &known {
+                for u in [format!("file://{}", pct_all(p)), file_path_to_uri(&PathBuf::from(p)).map(|u| u.as_str().to_string()).unwrap_or_default()] {
+                    if let Ok(u2) = Uri::from_str(&u) {
+                        let g = vfs.get_file_id(&u2).map(|f| f.id);
+                        if g != Some(*k) {
+                            flag(&mut bad, i, format!("after {:?}: get_file_id({u:?}) = {g:?} but the path has id {k}", s.op));
+                        }
+                    }
+                }
+            }
+            let mut local: Vec<u32> = vfs.get_all_local_file_ids().iter().map(|f| f.id).collect();
+            local.sort();
+            let mut expect: Vec<u32> = content.keys().filter_map(|p| known.get(p).copied()).collect();
+            expect.sort();
+            if local != expect {
+                flag(&mut bad, i, format!("after {:?}: local file ids {local:?}, paths with content have ids {expect:?} (orphan or lost slot)", s.op));
+            }
+        }
+        (format!("ok {}", outs.join(",")), bad)
+    })
+}
+
+/// every byte of the path percent-encoded (except `/`)
+fn pct_all(p: &str) -> String {
+    p.bytes().map(|b| if b == b'/' { "/".to_string() } else { format!("%{:02x}", b) }).collect()
+}
+
 fn needs_encoding(p: &[u8]) -> bool {
     p.iter().any(|b| *b < 0x21 || *b >= 0x7f || b"\"#<>?`{}%\\".contains(b))
 }
@@ -333,6 +561,7 @@ pub fn run(args: &Args, report: &mut Report) {
     report.rule = "distinct path byte strings / URI strings; non-trivial = contains a byte of the encode set, a non-ASCII byte, a dot segment or a non-canonical spelling".into();
     let mut rng = Rng::new(args.seed);
     let (n_paths, n_alt, n_vfs) = if args.thorough() { (400_000, 300_000, 60_000) } else { (12_000, 8_000, 2_000) };
+    let n_hist = if args.thorough() { 60_000 } else { 3_000 };
 
     // ---- table self-check (the Lean bridge theorems check the same rows against the model) ----
     let t = tables();
@@ -341,6 +570,7 @@ pub fn run(args: &Args, report: &mut Report) {
     let mut paths: Vec<GenPath> = Vec::new();
     let mut alts: Vec<(String, bool, String)> = Vec::new(); // (uri, in_class, canonical path)
     let mut seqs: Vec<Vec<String>> = Vec::new();
+    let mut histories: Vec<Vec<HStep>> = Vec::new();
 
     if let Some(f) = &args.replay {
         let v: Value = serde_json::from_str(&std::fs::read_to_string(f).expect("replay file")).expect("json");
@@ -358,6 +588,9 @@ pub fn run(args: &Args, report: &mut Report) {
                 alts.push((u.clone(), in_class, canon.clone()));
             }
             seqs.push(list);
+        }
+        if let Some(h) = inp.get("history").and_then(|x| x.as_array()) {
+            histories.push(h.iter().filter_map(step_from_json).collect());
         }
     } else {
         // fixed corner cases first
@@ -393,6 +626,20 @@ pub fn run(args: &Args, report: &mut Report) {
             let (u, c) = alt_uri(&mut rng, &p, true);
             alts.push((u, c, p));
         }
+        // the history that needs remove + re-add through two spellings, then random ones
+        histories.push(vec![
+            HStep { op: HOp::Set(Some(1)), path: "/a b.lua".into(), uri: "file:///a%20b.lua".into() },
+            HStep { op: HOp::GetFileId, path: "/a b.lua".into(), uri: "file:///%61%20b.lua".into() },
+            HStep { op: HOp::Remove, path: "/a b.lua".into(), uri: "file:///a%20b.lua".into() },
+            HStep { op: HOp::GetFileId, path: "/a b.lua".into(), uri: "file:///%61%20b.lua".into() },
+            HStep { op: HOp::Set(Some(2)), path: "/a b.lua".into(), uri: "file:///a%20b.lua".into() },
+            HStep { op: HOp::Set(Some(3)), path: "/a b.lua".into(), uri: "file:///%61%20b.lua".into() },
+            HStep { op: HOp::Read, path: "/a b.lua".into(), uri: "file:///a%20b.lua".into() },
+            HStep { op: HOp::LocalIds, path: String::new(), uri: String::new() },
+        ]);
+        for _ in 0..n_hist {
+            histories.push(gen_history(&mut rng, &good));
+        }
         for _ in 0..n_vfs {
             let k = rng.range(2, 6);
             let base: Vec<String> = (0..rng.range(1, 3)).map(|_| rng.pick(&good).clone()).collect();
@@ -417,6 +664,9 @@ pub fn run(args: &Args, report: &mut Report) {
     }
     for s in &seqs {
         reqs.push(format!("uri.fileid {}", s.iter().map(|u| hexb(u.as_bytes())).collect::<Vec<_>>().join(" ")));
+    }
+    for h in &histories {
+        reqs.push(format!("uri.history {}", h.iter().map(step_token).collect::<Vec<_>>().join(" ")));
     }
     let answers = run_driver(&reqs);
     let mut k = 0;
@@ -489,6 +739,33 @@ pub fn run(args: &Args, report: &mut Report) {
             report.mismatch(json!({"input": {"uris": s}, "op": "uri.fileid", "model": model, "impl": imp}));
         } else {
             report.traces_validated += 1;
+        }
+    }
+    // ---- histories on one Vfs: tie + the property's statement on the implementation ----
+    for h in &histories {
+        let model = &answers[k];
+        k += 1;
+        report.evaluations += 1;
+        report.count("vfs_history");
+        report.add("vfs_history_steps", h.len() as u64);
+        let hist_json: Vec<Value> = h.iter().map(step_json).collect();
+        match impl_history(h) {
+            Err(m) => report.oracle_failure(json!({"input": {"history": hist_json}, "what": format!("Vfs history panicked: {m}"), "class": Value::Null})),
+            Ok((imp, bad)) => {
+                if let Some(what) = bad {
+                    report.oracle_failure(json!({"input": {"history": hist_json}, "what": what, "class": Value::Null}));
+                }
+                if model == "err unsupported" {
+                    report.count("history_model_unsupported");
+                } else if *model != imp {
+                    report.mismatch(json!({"input": {"history": hist_json}, "op": "uri.history", "model": model, "impl": imp}));
+                } else {
+                    report.traces_validated += 1;
+                    if h.iter().any(|s| matches!(s.op, HOp::Remove)) {
+                        report.count("vfs_history_with_remove");
+                    }
+                }
+            }
         }
     }
     // ---- oracle: alternatives of one path + a different path through one Vfs ----
